@@ -59,6 +59,8 @@ Definition op_cond (c : case) : bool :=
   | 2 => len (k_pat c) =? k_w c
   | 3 | 7 => (len (k_cols c) =? k_w c) && forallb (fun col => len col =? nA c) (k_cols c)
   | 1 => true
+  | 8 => (k_k c =? k_w c) && (len (k_pat c) =? len (all_windows c))
+  | 9 => (k_k c =? k_w c) && (k_w c =? 1) && (len (k_pat c) =? len (k_rows c)) && forallb (fun r => 0 <=? r) (k_pat c)
   | _ => k_k c =? k_w c
   end.
 Lemma in_domain_inv (c : case) : in_domain c = true ->
@@ -164,10 +166,11 @@ Definition route_handled (c : case) : Prop :=
   end.
 
 Lemma model_ok_op (c : case) : model_ok c = true ->
-  k_op c = 0 \/ k_op c = 1 \/ k_op c = 2 \/ k_op c = 3 \/ k_op c = 4 \/ k_op c = 5 \/ k_op c = 6 \/ k_op c = 7.
+  k_op c = 0 \/ k_op c = 1 \/ k_op c = 2 \/ k_op c = 3 \/ k_op c = 4 \/ k_op c = 5 \/ k_op c = 6 \/ k_op c = 7
+  \/ k_op c = 8 \/ k_op c = 9.
 Proof.
   unfold model_ok. destruct (k_op c) as [|p|p]; [tauto| |discriminate].
-  destruct p as [[[?|?|]|[?|?|]|]|[[?|?|]|[?|?|]|]|]; try discriminate; tauto.
+  destruct p as [[[[?|?|]|[?|?|]|]|[[?|?|]|[?|?|]|]|]|[[[?|?|]|[?|?|]|]|[[?|?|]|[?|?|]|]|]|]; try discriminate; tauto.
 Qed.
 
 Lemma rows_close_refl_eq tol a b b' : b = b' -> rows_close tol a b = true -> rows_close tol a b' = true.
@@ -295,13 +298,30 @@ Section Sound.
       by (rewrite Ew; apply (kmer_code_le (nA c) win)).
     rewrite E1. rewrite sound_window_text by exact Hin. reflexivity.
   Qed.
+  Lemma sound_op8 : k_op c = 8 -> spec_ok c = true.
+  Proof.
+    intros Eop. pose proof sound_w1 as Hw. unfold spec_ok, model_ok in *. rewrite Hdom. rewrite Eop in *. cbn [andb].
+    apply andb_true_iff in Hm. destruct Hm as [Hm' Hl].
+    apply andb_true_iff in Hm'. destruct Hm' as [He Ho]. rewrite He. cbn [andb].
+    apply zll_eqb_eq in Ho, Hl. rewrite (labels_model_ok c Hdom Hl), andb_true_r. rewrite Ho.
+    unfold count_weighted, count_weighted_with.
+    rewrite get_kmers_row_local; [apply zll_eqb_refl|lia|apply keeps_stop_of; lia|apply sound_domk; lia].
+  Qed.
+
+  Lemma sound_op9 : k_op c = 9 -> spec_ok c = true.
+  Proof.
+    intros Eop. unfold spec_ok, model_ok in *. rewrite Hdom. rewrite Eop in *. cbn [andb].
+    apply andb_true_iff in Hm. destruct Hm as [Hm' Hl].
+    apply andb_true_iff in Hm'. destruct Hm' as [He Ho]. rewrite He. cbn [andb].
+    apply zll_eqb_eq in Hl. rewrite (labels_model_ok c Hdom Hl), andb_true_r. exact Ho.
+  Qed.
 End Sound.
 
 Theorem model_ok_implies_spec_ok_routes (c : case) :
   in_domain c = true -> route_handled c -> model_ok c = true -> spec_ok c = true.
 Proof.
   intros Hdom Hr Hm. unfold route_handled in Hr.
-  destruct (model_ok_op c Hm) as [E|[E|[E|[E|[E|[E|[E|E]]]]]]]; rewrite E in Hr.
+  destruct (model_ok_op c Hm) as [E|[E|[E|[E|[E|[E|[E|[E|[E|E]]]]]]]]]; rewrite E in Hr.
   - apply sound_op0; assumption.
   - apply sound_op1; assumption.
   - apply sound_op2; assumption.
@@ -310,6 +330,8 @@ Proof.
   - apply sound_op5; assumption.
   - apply sound_op6; assumption.
   - apply sound_op7; assumption.
+  - apply sound_op8; assumption.
+  - apply sound_op9; assumption.
 Qed.
 
 (* the property's own input class: a ragged collection (k_kind = 0) — every window >= 1, all eight operations *)
@@ -318,7 +340,7 @@ Theorem model_ok_implies_spec_ok (c : case) :
 Proof.
   intros Hdom Hk Hm. apply model_ok_implies_spec_ok_routes; try assumption.
   unfold route_handled. rewrite Hk. destruct (k_op c) as [|p|p]; try exact I; [discriminate|].
-  destruct p as [[[?|?|]|[?|?|]|]|[[?|?|]|[?|?|]|]|]; try exact I; reflexivity.
+  destruct p as [[[[?|?|]|[?|?|]|]|[[?|?|]|[?|?|]|]|]|[[[?|?|]|[?|?|]|]|[[?|?|]|[?|?|]|]|]|]; try exact I; reflexivity.
 Qed.
 
 (* the two dense routes as they are at /repo HEAD (dense_rows_pinned: the 2-d input is treated as ONE row): the
